@@ -42,7 +42,7 @@ RawCall(S, j, L) ==
    exp |-> [outcome |-> "value", code |-> 0, data |-> RawRspData(S.k + j, L),
             netfn |-> 10, cmd |-> 16 + (j % 3), body |-> RawBody(S.k + j, L), seq |-> j]]
 RawReact(S, j, L) ==
-  [React0 EXCEPT !.datagrams = << Dg(SessPacket(S, LE32s(j), B(MsgRspBytes(129, 11, 0, 1, 0, 16 + (j % 3), 0, RawRspData(S.k + j, L))), Iv(S.k + j)),
+  [React0 EXCEPT !.datagrams = << Dg(SessPacket(S, LE32s(j), MsgRspE(EchoS, 11, 0, 16 + (j % 3), 0, RawRspData(S.k + j, L)), Iv(S.k + j)),
                                      [kind |-> "rawrsp", valid |-> TRUE, code |-> 0]) >>]
 Commands(S, lens) == Flatten([j \in 1..Len(lens) |-> << RawCall(S, j, lens[j]), RawReact(S, j, lens[j]) >>])
 
@@ -255,7 +255,7 @@ OpAt(k, i, open) == LET r == Rnd(k, i) % 6 IN
 CloseCall(S) == [k |-> "call", api |-> "Close", label |-> "close", target |-> "sess", keepOnErr |-> TRUE,
                  exp |-> [outcome |-> "any", netfn |-> 6, cmd |-> 60, body |-> S.bmcSid]]
 CloseReact(S, j, cc) ==
-  [React0 EXCEPT !.datagrams = << Dg(SessPacket(S, LE32s(j), B(MsgRspBytes(129, 7, 0, 1, 0, 60, cc, <<>>)), Iv(S.k + j)),
+  [React0 EXCEPT !.datagrams = << Dg(SessPacket(S, LE32s(j), MsgRspE(EchoS, 7, 0, 60, cc, <<>>), Iv(S.k + j)),
                                      [kind |-> "closersp", valid |-> TRUE, code |-> cc]) >>]
 OpSteps(S, op, j) ==
   CASE op = "openOK" -> << NewSessionCall(S, ExpSession(S)), HonestOsr(S), HonestRakp2(S), HonestRakp4(S), ExpectSession(S) >>
